@@ -12,6 +12,8 @@ mod c05_log;
 mod c05_dhcpopt;
 #[path = "../c05_lldp.rs"]
 mod c05_lldp;
+#[path = "../c05_icmp6.rs"]
+mod c05_icmp6;
 use erbium::dhcp;
 use erbium::dhcp::dhcppkt;
 use erbium::dhcp::pool;
@@ -139,7 +141,7 @@ fn run(args: &Args, out: &mut dyn Write) -> Stats {
             writeln!(out, "{}", dhcpgen::case_decode(&w).0).unwrap();
         }
     }
-    for sub in [c05_dhcpopt::run(args, out), c05_lldp::run(args, out)] {
+    for sub in [c05_dhcpopt::run(args, out), c05_lldp::run(args, out), c05_icmp6::run(args, out)] {
         for (k, v) in sub.counts {
             st.add(&k, v);
         }
